@@ -164,7 +164,7 @@ func (fr *Frame) step(st *State, in ssa.Instruction, edgeCond map[[2]int]*Term) 
 		return
 	case *ssa.Store:
 		a := fr.addrOf(x.Addr)
-		if a.base != nil && a.kind != "local" && a.kind != "global" {
+		if _, tracked := fr.addrs[x.Addr]; a.base != nil && !tracked && a.kind != "local" && a.kind != "global" {
 			if _, isAlloc := x.Addr.(*ssa.Alloc); !isAlloc {
 				fr.nonNil(st, a.base, x)
 			}
